@@ -26,7 +26,7 @@ def s_adc(draw):
     N = draw(st.sampled_from([10001, 12000, 20000, 50000, 2 ** 15, 2 ** 17])) if big else draw(st.one_of(st.integers(2, 300), st.sampled_from([2, 3, 1000, 9999, 10000])))
     return {"N": N, "dist": draw(st.sampled_from(["gauss", "uniform", "sine", "quantised", "outliers"])), "seed": draw(st.integers(0, 2 ** 31 - 1)),
             "scale": 10 ** draw(st.floats(-3, 3)), "offset": draw(st.floats(-3, 3)), "n": draw(st.integers(1, 12)), "otype": draw(st.sampled_from(["v", "n"])),
-            "form": draw(st.sampled_from(["array", "es", "es_noise"])), "levels": draw(st.integers(2, 40)), "default_n": draw(st.booleans())}
+            "form": draw(st.sampled_from(["array", "es", "es_noise", "intarray"])), "levels": draw(st.integers(2, 40)), "default_n": draw(st.booleans())}
 
 
 def make_record(c):
@@ -53,7 +53,10 @@ def e_adc(c):
     x = make_record(c)
     N = x.size
     rs = np.random.RandomState(c["seed"] ^ 77)
-    if c["form"] == "array":
+    if c["form"] == "intarray":
+        x = np.rint(x / c["scale"] * 100).astype(np.int64)      # integer-valued record (e.g. raw codes) given as an int ndarray
+        arg, total = x.copy(), x.astype(float)
+    elif c["form"] == "array":
         arg, total = x.copy(), x
     elif c["form"] == "es":
         arg, total = electrical_signal(x.copy()), x
@@ -127,7 +130,11 @@ def e_si(c):
         return {"nontrivial": False, "classes": ["lag0-or-boundary-excluded"]}
     g = Guard()
     g.add("data", data)
-    r = np.asarray(lib(U.shortest_int, data, p)).ravel()
+    arg = data
+    if c["seed"] % 3 == 1 and np.all(data == np.round(data)):
+        arg = data.astype(np.int64)                              # integer dtype
+        g.add("data-int", arg)
+    r = np.asarray(lib(U.shortest_int, arg, p)).ravel()
     g.verify()
     g.release()
     check(r.size == 2, "shortest_int-shape", f"{r.shape}")
